@@ -133,6 +133,7 @@ struct Inner {
     order_hash: u64,
     sends: u64,
     delivers: u64,
+    send_errors: u64,
 }
 
 pub struct Shared {
@@ -229,8 +230,19 @@ impl dht::verif::Env for Shared {
         self.sched_cv.notify_all();
     }
     fn send_to(&self, sock: u64, buf: &[u8], to: SocketAddr) -> io::Result<usize> {
+        // what Linux does for a UDP socket: port 0 is EINVAL, the broadcast address without SO_BROADCAST
+        // is EACCES (a hostile referral can name either)
+        let to4 = v4(to);
+        if to4.port() == 0 {
+            self.lock().send_errors += 1;
+            return Err(io::Error::new(io::ErrorKind::InvalidInput, "simnet: EINVAL (port 0)"));
+        }
+        if to4.ip().is_broadcast() {
+            self.lock().send_errors += 1;
+            return Err(io::Error::new(io::ErrorKind::PermissionDenied, "simnet: EACCES (broadcast)"));
+        }
         let mut g = self.lock();
-        g.send(sock, buf, v4(to), false, 0);
+        g.send(sock, buf, to4, false, 0);
         Ok(buf.len())
     }
     fn recv_from(&self, sock: u64, buf: &mut [u8], timeout: Option<Duration>) -> io::Result<(usize, SocketAddr)> {
@@ -434,6 +446,7 @@ impl World {
                 order_hash: 0,
                 sends: 0,
                 delivers: 0,
+                send_errors: 0,
             }),
             sched_cv: Condvar::new(),
         });
@@ -453,6 +466,10 @@ impl World {
     }
     pub fn steps(&self) -> u64 {
         self.sh.lock().steps
+    }
+    /// send_to calls of nodes that failed (port 0 / broadcast destination)
+    pub fn send_errors(&self) -> u64 {
+        self.sh.lock().send_errors
     }
     pub fn stuck(&self) -> bool {
         self.sh.lock().stuck
